@@ -167,6 +167,13 @@ class DiagLinearOperator(TriangularLinearOperator):
         else:
             # the elementwise formula below would silently broadcast a mismatched right-hand side
             _matmul_broadcast_shape(self.shape, inv_quad_rhs.shape)
+            # same contract as LinearOperator.inv_quad_logdet: with another number of dimensions the
+            # reduction below would run over the wrong axis
+            if not (self.dim() == 2 and inv_quad_rhs.dim() == 1) and self.dim() != inv_quad_rhs.dim():
+                raise RuntimeError(
+                    "LinearOperator (size={}) and right-hand-side Tensor (size={}) should have the same number "
+                    "of dimensions.".format(self.shape, inv_quad_rhs.shape)
+                )
             rhs_batch_shape = inv_quad_rhs.shape[1 + self.batch_dim :]
 
         if inv_quad_rhs is None:
